@@ -358,6 +358,19 @@ func runC11(p *core.Program, r *core.Report) {
 			if strings.HasSuffix(st.Field(i).Type().String(), "sync.Cond") {
 				hasCond = true
 			}
+			// the condition variable kept in a monitor struct of the package
+			if ft := namedOf(st.Field(i).Type()); ft != nil && ft.Obj().Pkg() == n.Obj().Pkg() {
+				if ist, ok := ft.Underlying().(*types.Struct); ok {
+					for k := 0; k < ist.NumFields(); k++ {
+						if strings.HasSuffix(ist.Field(k).Type().String(), "sync.Cond") {
+							hasCond = true
+						}
+					}
+				}
+			}
+		}
+		if MonitorTypes(p)[n.Obj()] {
+			continue // the lock itself, not a queue
 		}
 		if !hasCond {
 			continue
